@@ -115,8 +115,13 @@ def scanScopes (reg : Registry) (heap : Heap) (parts : List Str) : List Nat → 
       let r2 := scanScopes reg heap parts is
       (r2.1, r.2 ++ r2.2)
 
+/-- keep the first occurrence of every id (`seen`: ids already emitted) -/
+def dedupAux (seen : List Nat) : List Nat → List Nat
+  | [] => []
+  | a :: l => if a ∈ seen then dedupAux seen l else a :: dedupAux (a :: seen) l
+
 /-- `ScopeStack.__init__`: builtins (heap id 0) and `_builtins2` (id 1) first, duplicates (by identity) removed. -/
-def normIds (ids : List Nat) : List Nat := (0 :: 1 :: ids).eraseDups
+def normIds (ids : List Nat) : List Nat := dedupAux [] (0 :: 1 :: ids)
 
 /-- `symbol_needs_import(fullname, namespaces)` → (decision, effects in execution order). -/
 def symbolNeedsImport (reg : Registry) (heap : Heap) (ids : List Nat) (fullname : Str) : Bool × List Effect :=
